@@ -67,8 +67,13 @@ def r1(ctx: Ctx) -> None:
     conv = ctx.repo.func(HR, "_async_ip_address_to_addrs")
     hosts_p = fn.param_names()[0]
     loops = [n for n in own_nodes(fn.node) if isinstance(n, ast.For)]
-    ctx.require(len(loops) == 1, "async_resolve_host: host loop not unique")
-    loop = loops[0]
+    # results keep the order of the configured addresses because ONE loop walks them and each host's results are added
+    # when that host is done; a second pass that resolves some hosts later (batched, gathered) breaks that order
+    host_loops = [l for l in loops if norm(l.iter) == hosts_p]
+    ctx.ob("C20.R1", fn, "one pass over the configured addresses decides and resolves every host (no deferred second pass)", len(loops) == 1 and len(host_loops) == 1, f"{len(loops)} loops: {[norm(l.iter)[:50] for l in loops]}")
+    if len(host_loops) != 1:
+        return
+    loop = host_loops[0]
     ctx.ob("C20.R1", fn, "the loop visits the configured addresses themselves, in order", norm(loop.iter) == hosts_p and isinstance(loop.target, ast.Name), f"iterates {norm(loop.iter)}")
     host = norm(loop.target)
     heads = [n for n in g.reachable() if n.kind == "for" and n.ast is loop]
@@ -298,9 +303,9 @@ def r2(ctx: Ctx) -> None:
         t = n.ast
         if isinstance(t, ast.Name) and t.id in v6:
             return ("ipv6", True)
-        if isinstance(t, ast.Compare) and norm(t) == f"{ipp}.version == 6":
+        if isinstance(t, ast.Compare) and norm(t) in (f"{ipp}.version == 6", f"{ipp}.version != 4"):
             return ("ipv6", True)
-        if isinstance(t, ast.Compare) and norm(t) == f"{ipp}.version == 4":
+        if isinstance(t, ast.Compare) and norm(t) in (f"{ipp}.version == 4", f"{ipp}.version != 6"):
             return ("ipv6", False)
         return None
 
@@ -327,7 +332,25 @@ def r2(ctx: Ctx) -> None:
             for c in node_calls(n):
                 if norm(c.func) == "AddrInfo":
                     kwf = {k.arg: k.value for k in c.keywords}
-                    f_ = norm(kwf.get("family")) if kwf.get("family") is not None else ""
+                    fexp = kwf.get("family")
+                    if isinstance(fexp, ast.Name):
+                        # a local set in each branch: the definition(s) that reach this call
+                        seen_b = {n}
+                        todo_b = [n]
+                        vals_b = set()
+                        while todo_b:
+                            x = todo_b.pop()
+                            for l_, pn in x.pred:
+                                if pn in seen_b:
+                                    continue
+                                seen_b.add(pn)
+                                if pn.kind == "stmt" and isinstance(pn.ast, (ast.Assign, ast.AnnAssign)) and pn.ast.value is not None and any(isinstance(t_, ast.Name) and t_.id == fexp.id for t_ in (pn.ast.targets if isinstance(pn.ast, ast.Assign) else [pn.ast.target])):
+                                    vals_b.add(norm(pn.ast.value))
+                                    continue
+                                todo_b.append(pn)
+                        if len(vals_b) == 1:
+                            fexp = ast.parse(next(iter(vals_b)), mode="eval").body
+                    f_ = norm(fexp) if fexp is not None else ""
                     sa_ = norm(kwf.get("sockaddr").func) if isinstance(kwf.get("sockaddr"), ast.Call) else ""
                     if f_ in ("socket.AF_INET6", "socket.AF_INET") and sa_:
                         okf = okf and ((f_ == "socket.AF_INET6") == (sa_ == "IPv6Sockaddr"))
@@ -537,6 +560,12 @@ def r3(ctx: Ctx) -> None:
     if hi is not None:
         rets = [n for n in own_nodes(hi.node) if isinstance(n, ast.Return)]
         ctx.ob("C20.R3", hi, "has_instance <=> an instance is set", len(rets) == 1 and norm(rets[0].value) == f"self.{inst} is not None", f"{[norm(r.value) for r in rets]}")
+    # ---- who may ask the manager for an instance (asking creates one when none is set): the service-info helper, which
+    # closes what it caused to be created, and the reconnect logic's listen / unlisten pair, whose stop() closes through
+    # the manager.  Any other place that asks - an accessor, a diagnostic - can create an instance nobody closes.
+    askers = sorted({f.qualname for f in ctx.repo.all_funcs() for c in _calls(f) if isinstance(c.func, ast.Attribute) and c.func.attr == "get_async_zeroconf" and not (f.cls is not None and f.cls.name == mgr.name and f.name == "get_async_zeroconf")})
+    allowed_askers = {"_async_zeroconf_get_service_info", "ReconnectLogic._start_zc_listen", "ReconnectLogic._stop_zc_listen"}
+    ctx.ob("C20.R3", f"{ZC}:ZeroconfManager", "an instance is requested (and possibly created) only where it is closed again", set(askers) <= allowed_askers and bool(askers), f"also requested in {sorted(set(askers) - allowed_askers)}: a library-created instance obtained there is never closed")
     # ---- service-info helper
     gi = ctx.repo.func(HR, "_async_zeroconf_get_service_info")
     gg = cfg_of(ctx, gi)
